@@ -52,7 +52,8 @@ func NewViaModifier(requestedBy string) *ViaModifier {
 func (m *ViaModifier) ModifyRequest(req *http.Request) error {
 	via := fmt.Sprintf("%d.%d %s-%s", req.ProtoMajor, req.ProtoMinor, m.requestedBy, m.boundary)
 
-	if v := req.Header.Get("Via"); v != "" {
+	// Via may be spread over several header lines; all of them count.
+	if v := strings.Join(req.Header["Via"], ", "); v != "" {
 		if m.hasLoop(v) {
 			err := fmt.Errorf("via: detected request loop, header contains %s", via)
 
